@@ -298,6 +298,7 @@ def classify(fn):
 #   ('many0', e) | ('many1', e) | ('manytill', e, f) | ('node', K, e) | ('drop', e) | ('not', e) | ('eof',) |
 #   ('tmpl', [binds], tmpl) | ('bad', why) | ('act', a)
 # tmpl: ('b', i) | ('n', K, [tmpl])
+ACTS = {"begin_directive": 1, "end_directive": 2, "begin_keywords": 3, "end_keywords": 4}
 PRIM_SPAN = {"tag", "tag_no_case", "is_a", "is_not", "one_of", "none_of", "char", "take", "digit1", "multispace1",
              "space1", "alpha1", "alphanumeric1", "hex_digit1", "anychar", "line_ending", "not_line_ending"}
 WRAP = {"paren": ("(", ")", "Paren"), "bracket": ("[", "]", "Bracket"), "brace": ("{", "}", "Brace"),
@@ -484,7 +485,17 @@ class Norm:
         if len(params) != 1:
             return self.B("closure parameters")
         pat = P(lex(params[0])).pattern() if params[0].startswith("(") else ("pvar", params[0].split(":")[0].strip())
-        return self.bind_and_build([(pat, shape, f)], clo[2])
+        body = clo[2]
+        acts = []
+        if body[0] == "block" and body[1]:
+            for st in body[1]:
+                if st[0] == "do" and st[1][0] == "call" and st[1][1][0] == "name" and st[1][1][1] in ACTS:
+                    acts.append(ACTS[st[1][1][1]])
+                else:
+                    return self.B("statement in closure block")
+            body = body[2]
+        binds = [(pat, shape, f)] + [(("pvar", "_"), "one", ("act", a)) for a in acts]
+        return self.bind_and_build(binds, body)
 
     def pexp_valued(self, e):
         """-> (value shape, fexp) ; shape: 'one' | ('tuple', [shapes])  describing how the value destructures"""
@@ -558,9 +569,6 @@ if __name__ == "__main__" and len(sys.argv) > 1 and sys.argv[1] == "norm":
 
 
 # ------------------------------------------------------------------ hand IR for the few functions outside the two shapes
-ACTS = {"begin_directive": 1, "end_directive": 2, "begin_keywords": 3, "end_keywords": 4}
-
-
 def hand_overrides(nm):
     """name -> fexp (Python IR), valid for exactly the recorded source hash"""
     C = lambda n: ("call", n)
@@ -573,9 +581,9 @@ def hand_overrides(nm):
         return ("tmpl", [("lexleaf", ("lex", prim))], [["a"]], t)
     return {
         "white_space": ("if", 1,
-            ("tmpl", [("lexleaf", ("lex", "multispace1"))], [["a"]], ("n", "WhiteSpace", [("b", 0, 0, 1)])),
-            ("alt", [("tmpl", [("lexleaf", ("lex", "space1"))], [["a"]], ("n", "WhiteSpace", [("b", 0, 0, 1)])),
-                     ("tmpl", [("lexleaf", ("lex", "multispace1"))], [["a"]], ("n", "WhiteSpace", [("b", 0, 0, 1)])),
+            ("tmpl", [("lexleaf", ("lex", "is_a:blank_or_newline"))], [["a"]], ("n", "WhiteSpace", [("b", 0, 0, 1)])),
+            ("alt", [("tmpl", [("lexleaf", ("lex", "is_a:blank"))], [["a"]], ("n", "WhiteSpace", [("b", 0, 0, 1)])),
+                     ("tmpl", [("lexleaf", ("lex", "is_a:blank_or_newline"))], [["a"]], ("n", "WhiteSpace", [("b", 0, 0, 1)])),
                      ("tmpl", [("drop", ("lex", "char")), C("comment")], [["_"], ["a"]], ("n", "WhiteSpace", [("b", 1, 0, 1)])),
                      ("tmpl", [("drop", ("lex", "char")), C("compiler_directive_without_resetall")], [["_"], ["a"]], ("n", "WhiteSpace", [("b", 1, 0, 1)]))])),
         "one_line_comment": leafnode("Comment", "one_line_comment"),
@@ -829,6 +837,39 @@ def generate():
             if f["name"] in cert and not nn_py(e, cert):
                 cert.discard(f["name"]); changed_c = True
     cert_idx = sorted(em.index[n] for n in cert) + sorted(em.extra.values())
+    # neutrality certificates (Nom/Neutral.v re-checks them): productions that leave the observed stack as they found it
+    def neutral_py(e, cert, invisible, inverse):
+        k = e[0]
+        if k == "call":
+            return e[1] in cert
+        if k == "term":
+            return e[1] == "symbol_exact" or "white_space" in cert      # symbol / keyword end with many0(white_space)
+        if k in ("lex", "eof", "bad"):
+            return True
+        if k in ("lexleaf", "opt", "many0", "many1", "drop", "not"):
+            return neutral_py(e[1], cert, invisible, inverse)
+        if k in ("seq", "alt", "tmpl"):
+            return all(neutral_py(x, cert, invisible, inverse) for x in e[1])
+        if k == "manytill":
+            return neutral_py(e[1], cert, invisible, inverse) and neutral_py(e[2], cert, invisible, inverse)
+        if k == "if":
+            return neutral_py(e[2], cert, invisible, inverse) and neutral_py(e[3], cert, invisible, inverse)
+        if k == "act":
+            return e[1] in invisible
+        if k == "wrap":
+            return ((e[1] in invisible and e[2] in invisible) or (e[1], e[2]) in inverse) and neutral_py(e[3], cert, invisible, inverse)
+        return False
+    def neutral_cert(invisible, inverse):
+        c = {f["name"] for f, _ in bodies}
+        ch = True
+        while ch:
+            ch = False
+            for f, e in bodies:
+                if f["name"] in c and not neutral_py(e, c, invisible, inverse):
+                    c.discard(f["name"]); ch = True
+        return c
+    dir_cert = neutral_cert({3, 4}, {(1, 2)})
+    ver_cert = neutral_cert({1, 2}, {(3, 4)})
     text = ["(* GENERATED by gen/svx_grammar.py from /repo/sv-parser-parser/src -- do not edit *)",
             "From SV Require Import Peg.", "Local Open Scope nat_scope.",
             "(* production indices are written in binary: a unary numeral of that size per call is slow to read *)",
@@ -840,13 +881,23 @@ def generate():
     cs = set(cert_idx)
     text.append("Definition nonnull_cert : list bool := [%s]." % "; ".join("true" if i in cs else "false" for i in range(len(em.index) + len(em.extra))))
     text.append("Definition all_prims : list N := map N.of_nat (seq 0 %d)." % len(em.prims))
+    ntot = len(em.index) + len(em.extra)
+    byidx = {i: n for n, i in em.index.items()}
+    for nm_, cset in (("dir_neutral_cert", dir_cert), ("ver_neutral_cert", ver_cert)):
+        synth = {i: (h == "symbol_exact" or "white_space" in cset) for (h, _t), i in em.extra.items()}
+        text.append("Definition %s : list bool := [%s]." % (nm_, "; ".join(
+            "true" if (synth[i] if i >= len(em.index) else byidx[i] in cset) else "false" for i in range(ntot))))
+    for start in ("resetall_compiler_directive", "text_macro_usage", "text_macro_definition", "compiler_directive",
+                  "keywords_directive", "endkeywords_directive", "version_specifier"):
+        text.append("Definition start_%s : nat := Eval vm_compute in N.to_nat %d%%N." % (start, em.index[start]))
     text = "\n".join(text) + "\n"
     facts = {"functions": len(fs), "synthetic_terminals": len(em.extra), "primitives": len(em.prims), "how": how,
              "bad_spots": sorted(set(nm.bad))[:20], "n_bad": text.count("FBad"),
              "override_hashes": {f["name"]: body_hash(f) for f in fs if f["name"] in overrides},
              "lexer_hashes": {f["name"]: body_hash(f) for f in fs if f["ret"] in ("Locate", "Span")},
              "hash": hashlib.sha256(text.encode()).hexdigest()[:16], "index": em.index, "kinds": kinds,
-             "nonnull": len(cert), "nullable": sorted(set(em.index) - cert)[:40]}
+             "nonnull": len(cert), "nullable": sorted(set(em.index) - cert)[:40],
+             "dir_neutral": len(dir_cert), "ver_neutral": len(ver_cert), "not_dir_neutral": sorted(set(em.index) - dir_cert)[:20]}
     return text, facts
 
 
